@@ -43,7 +43,7 @@ COMPONENTS = {
     "real": ["cutplace.rowio.fixed_rows", "io.TextIOWrapper/BufferedReader/StringIO", "codecs"],
     "stub": ["SimFS/SimRaw (short reads)", "fixed text peer", "client that abandons a prior reader"],
 }
-PROBES_REQUIRED = ["field-wider-than-io-buffers", "starts-with-u+feff", "push-back-width-1", "push-back-width-2+", "cr-at-eof-under-any", "crlf-split-across-chunks",
+PROBES_REQUIRED = ["via-cutplace.rows", "stream-handed-over-behind-a-preamble", "field-wider-than-io-buffers", "starts-with-u+feff", "push-back-width-1", "push-back-width-2+", "cr-at-eof-under-any", "crlf-split-across-chunks",
                    "short-last-record", "setting:any", "setting:lf", "setting:cr", "setting:crlf", "setting:none",
                    "prior-reader-abandoned-with-pending-push-back", "ambiguous-any", "source:path", "source:stream",
                    "source:stringio", "mutation:del", "mutation:ins", "mutation:sub", "multibyte-split"]
@@ -171,7 +171,8 @@ def generate(seed, tier):
                  # the earlier data lived at the very path the judged data are stored at a moment later
                  "same_path": swarm.random() < 0.5}
     return {"io": simfs.IoConfig.draw(swarm), "text": text, "mutation": mutation, "widths": widths, "setting": setting,
-            "source": source, "prior": prior, "kind": kind}
+            "source": source, "prior": prior, "kind": kind, "preamble": swarm.random() < 0.2,
+            "via": swarm.choice(["rowio", "rowio", "reader"])}
 
 
 def final_text(scenario):
@@ -228,7 +229,10 @@ def sweep_slice(tier, start, count):
 
 
 # ---- execution ---------------------------------------------------------------------------------
-def _open_source(fs, kind, text, name):
+def _open_source(fs, kind, text, name, preamble=False):
+    if preamble and kind in ("stringio", "stream"):
+        # the caller has consumed a banner line before handing the stream over: the data begin at its position
+        return lib.stream_behind_preamble(fs, name, text.encode("utf-8"), "utf-8", kind)
     if kind == "stringio":
         return io.StringIO(text, newline="")
     fs.store(name, text.encode("utf-8"))
@@ -237,7 +241,16 @@ def _open_source(fs, kind, text, name):
     return name
 
 
-def _read(rowio, source, widths, setting):
+def _read(rowio, source, widths, setting, via="rowio"):
+    if via == "reader":
+        # the same reading through cutplace.rows under a CID of optional Text fields: nothing is rejected for its
+        # content, so the rows are those of fixed_rows and a malformed stream ends in the same DataFormatError
+        from cutplace import validio
+
+        cid_rows = [["d", "format", "fixed"], ["d", "encoding", "utf-8"], ["d", "line delimiter", setting]]
+        cid_rows += [["f", "f%d" % index, "", "X", str(width), "Text", ""] for index, width in enumerate(widths)]
+        cid = lib.load_cid(cid_rows)
+        return lib.call(lambda: lib.collect_rows(validio.rows(cid, source)))
     fields = [("f%d" % index, width) for index, width in enumerate(widths)]
     return lib.call(lambda: lib.collect_rows(rowio.fixed_rows(source, "utf-8", fields, SETTINGS[setting])))
 
@@ -342,12 +355,16 @@ def execute(scenario):
             consumed = sum(len("".join(row)) for row in taken) + len(taken)
             if prior["setting"] == "any" and taken and consumed < len(prior["text"]) and prior["text"][consumed - 1] == "\r":
                 result.probe("prior-reader-abandoned-with-pending-push-back")
-        source = _open_source(fs, scenario["source"], text, "data.txt")
-        status, value = _read(rowio, source, widths, setting)
+        source = _open_source(fs, scenario["source"], text, "data.txt", scenario.get("preamble"))
+        if scenario.get("preamble") and scenario["source"] != "path":
+            result.probe("stream-handed-over-behind-a-preamble")
+        status, value = _read(rowio, source, widths, setting, scenario.get("via", "rowio"))
+        if scenario.get("via") == "reader":
+            result.probe("via-cutplace.rows")
     keep.clear()
     history.add("client", "read", {"status": status, "value": value if status == "ok" else lib.error_summary(value)})
 
-    features = ["setting=" + setting, "source=" + scenario["source"]]
+    features = ["setting=" + setting, "source=" + scenario["source"]] + (["via=reader"] if scenario.get("via") == "reader" else [])
     if prior:
         features.append("prior-reader")
     # reach
